@@ -468,3 +468,31 @@ def token_contracts():
     pred("is_comment", lambda t: comment_match(CM, t), loops={0: comment_loop}, props=("C04",))
     pred("is_string", lambda t: z3.Or(dec("decode_quoted_string", t), unq(t)))
     return out
+
+
+# ------------------------------------------------------------------------------------------------
+# T_enc on pvl/decoder.py: ODLDecoder.is_identifier (assumed in T_dec, discharged here)
+
+def identifier_contracts():
+    from ..pyvc.core import LoopSpec
+    from ..pyvc.objtheory import S, strlen, lit, suffixof, sval
+    from ..pyvc.lextheory import charat
+    from ..pyvc.enctheory import char_of, all_chars_ident, ascii_ok
+    B = z3.BoolSort()
+    isalpha = z3.Function("str_isalpha", S, B)
+    isdigit = z3.Function("str_isdigit", S, B)
+    US = lit("_")
+
+    def identchar(c):
+        return z3.Or(isalpha(c), isdigit(c), c == US)
+
+    def spec(s):
+        """ODL identifier (PDS3 12.2): ASCII letters, digits and underscores; starts with a letter, does not end with '_'"""
+        return z3.And(strlen(s) > 0, ascii_ok(s), isalpha(charat(s, z3.IntVal(0))), z3.Not(suffixof(s, US)), all_chars_ident(s))
+    loop = LoopSpec(
+        fall_through=lambda env, st, x: [("the character is a letter, a digit or an underscore", identchar(x))],
+        exit=lambda env, st: [("every character is a letter, a digit or an underscore", all_chars_ident(sval(env["value"])))])
+    c = Contract("pvl.decoder.ODLDecoder.is_identifier", params={"value": "str"}, loops={0: loop}, exits=[
+        Exit("return", res="bool", post=lambda pre, post, a, r: [("is_identifier == the ODL identifier rule", r.t == spec(sval(a["value"])))])],
+        props=("C17", "C12"))
+    return [c]
